@@ -1,6 +1,10 @@
 package main
 
 import (
+	"mltwist/internal/consoleui/verifh/uix"
+	"mltwist/internal/parser"
+	"mltwist/pkg/expr"
+	"mltwist/pkg/model"
 	"mltwist/verifh/eng"
 	"mltwist/verifh/prog"
 )
@@ -10,25 +14,62 @@ type uiProg struct {
 	Name  string
 	Segs  []prog.Seg
 	Entry uint64
+	// Syn: the code is given as synthetic instructions (shapes no RISC-V front end produces)
+	Syn func() []parser.Instruction
+}
+
+// newSession builds the UI session of a program.
+func newSession(p uiProg) (*uix.Session, error) {
+	if p.Syn != nil {
+		return uix.NewFromIns(p.Syn(), p.Entry)
+	}
+	return uix.New(p.Segs, p.Entry)
+}
+
+type synText struct{ name, text string }
+
+func (d synText) Name() string   { return d.name }
+func (d synText) String() string { return d.text }
+
+// synLong: two blocks (separated by an address gap) of mutually independent instructions with
+// encodings of 4, 12, 9 / 16, 2 bytes and texts of up to 33 characters that differ only near their end.
+func synLong() []parser.Instruction {
+	mk := func(addr uint64, n int, reg, name, text string) parser.Instruction {
+		bs := make([]byte, n)
+		for i := range bs {
+			bs[i] = byte(addr) + byte(0x11*(i+1))
+		}
+		return parser.Instruction{Addr: model.Addr(addr), Bytes: bs, Details: synText{name, text},
+			Effects: []expr.Effect{expr.NewRegStore(expr.ConstFromUint(uint64(n)), expr.Key(reg), 8)}}
+	}
+	return []parser.Instruction{
+		mk(0x1000, 4, "ra", "nop.s", "nop.s"),
+		mk(0x1004, 12, "rb", "vfmadd.precise", "vfmadd.precise v10, v11, v12, v13"),
+		mk(0x1010, 9, "rc", "vfmadd.precise", "vfmadd.precise v10, v11, v12, v14"),
+		mk(0x2000, 16, "rd", "vldst.gather.masked", "vldst.gather.masked v1, (v2), v0.t"),
+		mk(0x2010, 2, "re", "c.nop", "c.nop"),
+	}
 }
 
 var uiProgs = []uiProg{
-	{"one-instruction", []prog.Seg{{Base: 0x1000, Words: []uint32{prog.Nop}}}, 0x1000},
+	{"one-instruction", []prog.Seg{{Base: 0x1000, Words: []uint32{prog.Nop}}}, 0x1000, nil},
 	{"three-blocks", []prog.Seg{{Base: 0x1000, Words: []uint32{
 		prog.Addi(1, 0, 1), prog.Addi(2, 0, 2), prog.Beq(1, 2, 12), // block 1 (3)
 		prog.Addi(3, 0, 3), prog.Sw(3, 5, 0), // block 2 (2)
 		prog.Lw(4, 5, 0), prog.Add(6, 4, 3), prog.Addi(7, 0, 7), prog.Jal(0, -32), // block 3 (4)
-	}}}, 0x1000},
+	}}}, 0x1000, nil},
 	{"loop-with-gap", []prog.Seg{
 		{Base: 0x1000, Words: []uint32{prog.Addi(1, 1, 1), prog.Sb(1, 2, 0), prog.Lbu(3, 2, 1), prog.Bne(1, 3, -12)}},
 		{Base: 0x2000, Words: []uint32{prog.Ecall}},
-	}, 0x1004},
+	}, 0x1004, nil},
 	// blocks of 2, 1 and 2 instructions: equal-sized outer blocks around a different one
 	{"sym-blocks", []prog.Seg{{Base: 0x1000, Words: []uint32{
 		prog.Addi(5, 0, 1), prog.Jal(0, 8),
 		prog.Jal(0, -8),
 		prog.Addi(6, 0, 2), prog.Jal(0, -16),
-	}}}, 0x1000},
+	}}}, 0x1000, nil},
+	// synthetic instructions with long encodings and long texts
+	{"synthetic-long", nil, 0x1000, synLong},
 }
 
 // uiProgsDeep are used by the thorough tiers only.
@@ -39,12 +80,12 @@ var uiProgsDeep = []uiProg{
 		prog.Addi(3, 0, 3), prog.Jal(0, 12), // -> 0x101c
 		prog.Sw(3, 5, 0), prog.Lw(4, 5, 4),
 		prog.Add(6, 4, 3), prog.Addi(7, 0, 7), prog.Addi(8, 0, 8), prog.Jal(0, -40), // -> 0x1000
-	}}}, 0x100c},
+	}}}, 0x100c, nil},
 	// two segments, five blocks, entry in the middle of the second segment
 	{"two-segments", []prog.Seg{
 		{Base: 0x1000, Words: []uint32{prog.Addi(1, 0, 1), prog.Bne(1, 0, 8), prog.Addi(2, 0, 2), prog.Addi(3, 0, 3), prog.Jal(0, -16)}},
 		{Base: 0x3000, Words: []uint32{prog.Addi(4, 0, 4), prog.Jal(0, 8), prog.Ecall, prog.Addi(5, 0, 5), prog.Addi(6, 0, 6), prog.Jal(0, -12)}},
-	}, 0x300c},
+	}, 0x300c, nil},
 }
 
 func progByName(n string) uiProg {
